@@ -361,7 +361,7 @@ def expanded_facts(fi: FuncInfo, facts) -> Set[Tuple[str, bool]]:
 
 
 def concrete_paths(fi: FuncInfo, init_env: Dict[str, object], event: Callable, subst: Optional[Callable[[ast.AST], ast.AST]] = None, follow_exc: bool = False,
-                   cfg=None) -> Set[Tuple[str, Tuple[str, ...]]]:
+                   cfg=None, cut: Optional[Callable] = None) -> Set[Tuple[str, Tuple[str, ...]]]:
     """Finite-domain evaluation of a function on its CFG for ONE concrete environment: assignments of foldable expressions
     to simple locals update the environment (named booleans, aliases), branch conditions that fold prune the other edge,
     everything else forks.  ``event(node)`` names an event (or None); returns {(exit kind, event sequence)} over all
@@ -376,6 +376,9 @@ def concrete_paths(fi: FuncInfo, init_env: Dict[str, object], event: Callable, s
 
     def transfer(n, val):
         env_t, trace = val
+        if cut is not None and cut(n, trace):
+            raised.add(("cut", trace))
+            return None
         ev = event(n)
         if ev is not None:
             trace = trace + (ev,)
